@@ -98,6 +98,13 @@ def gen_cases(ctx):
                 seq = [syms[0]] * phase + [syms[a] for a in db + db[:dbn - 1]]
                 cases.append(Case("D_%s_p%d_%d" % (ind, p, phase), [new_op(0, ind, (p, 0, 0, 0.0))] + [("n", 0, x) for x in seq],
                                   meta={"ind": ind, "p": p, "fam": "D", "n": len(seq)}))
+    # family OVF (known finding K8): finite inputs whose sums / differences overflow binary64 although the statistic itself is
+    # representable: the accumulators return inf / NaN / 0 instead
+    H = 1.7e308
+    for ind, p, seq in [("SMA", 2, [H, H, 1.0, 1.0, 1.0]), ("WMA", 2, [H, H, H]), ("SD", 2, [H, -H, H]), ("MAD", 2, [H, H, 1.0]),
+                        ("BB", 2, [H, -H, H])]:
+        cases.append(Case("OVF_%s" % ind, [new_op(0, ind, (p, 0, 0, 2.0 if ind == "BB" else 0.0))] + [("n", 0, x) for x in seq],
+                          meta={"ind": ind, "p": p, "fam": "OVF", "n": len(seq)}))
     # family B
     nb = 3 if not ctx.thorough else 12
     for ind in KINDS7:
@@ -131,8 +138,8 @@ def gen_cases(ctx):
     cases.append(Case("K7_SMA_adversary", [new_op(0, "SMA", (2, 0, 0, 0.0))] + [("n", 0, x) for x in adv], dump=(),
                       meta={"ind": "SMA", "p": 2, "fam": "K7", "n": len(adv)}))
     k7 = [c for c in cases if c.meta['fam'] == 'K7']
-    rest = [c for c in cases if c.meta['fam'] not in ('K7', 'D') and c.meta['p'] <= 64]
-    big = [c for c in cases if c.meta['fam'] != 'K7' and (c.meta['p'] > 64 or c.meta['fam'] == 'D')]
+    rest = [c for c in cases if c.meta['fam'] not in ('K7', 'D', 'OVF') and c.meta['p'] <= 64]
+    big = [c for c in cases if c.meta['fam'] != 'K7' and (c.meta['p'] > 64 or c.meta['fam'] in ('D', 'OVF'))]
     return with_scaled(rest, r) + big + k7
 
 
@@ -151,6 +158,8 @@ def t2_violation(ctx, c, r):
     key = None
     if c.meta["fam"] == "K7" and ind == "WMA":
         key = {"indicator": "WMA", "class": "rounding-aligned-adversary"}
+    if c.meta["fam"] == "OVF":
+        key = {"indicator": ind, "class": "intermediate-overflow"}
     cut = Case(c.cid + "_cut", c.ops[:r], dump=(), meta=c.meta)
     cut.obs = c.obs[:r]
     return Violation("%s(%d): output after %d inputs leaves tau(t)*maxmag of the exact statistic of the last min(t,n) inputs (case %s): impl %s"
